@@ -206,7 +206,12 @@ def run(chk):
                         for f in rej[x + 1:]:
                             if f[1] == e[1] and e[2] in [y for y in f[2:4] if isinstance(y, int)]:
                                 after_join = True
-                chk.violation("from_ms:order-dependent-acceptance" + (":option-after-same-time-join" if after_join else ""),
+                # where do the two orders differ?  a same-time group with several -es is the territory of F21
+                ev_a, ev_b = msparse.parse(a)[0]["events"], rej
+                diff_t = set(x[1] for x, y in zip(ev_a, ev_b) if x != y)
+                many_splits = bool(diff_t) and all(sum(1 for e in rej if e[0] == "s" and e[1] == t) >= 2 for t in diff_t)
+                chk.violation("from_ms:order-dependent-acceptance" + (":option-after-same-time-join" if after_join else
+                                                                     ":several-same-time-splits" if many_splits else ""),
                               "two orders of commuting same-time options: one accepted, one rejected", dict(rep, accepted=a, rejected=b))
         chk.sample(dict(command=cmd, N0=N0, result=ir[0] if ir[0] == "ok" else ir[1]), limit=4)
     drv.close()
